@@ -310,6 +310,26 @@ func c11CheckRoundTrip(c *vf.Ctx, sub string, i int, members []metadata.Protocol
 	if err != nil || !bytes.Equal(re, enc) {
 		c.Fail(sub, i, "reencode-differs-valid", fmt.Sprintf("err=%v", err), wit())
 	}
+	// the bytes an encoding returns are the caller's: overwritten (a reused buffer, a corrupted copy made in place),
+	// they change neither the metadata nor what the library encodes and decodes afterwards
+	if mine, err := md.MarshalBinary(); err == nil {
+		keep := append([]byte(nil), mine...)
+		for x := range mine {
+			mine[x] ^= 0xff
+		}
+		again, err := md.MarshalBinary()
+		if err != nil || !bytes.Equal(again, keep) {
+			c.Fail(sub, i, "encoding-changes-after-caller-overwrote-earlier-result", fmt.Sprintf("ids=%s err=%v", idsOf(members), err), wit())
+			copy(mine, keep) // (leave the library's memory as it was, for the cases that follow)
+			return
+		}
+		chk := metadata.Default.New()
+		if err := chk.UnmarshalBinary(keep); err != nil || !chk.Equal(md) {
+			c.Fail(sub, i, "decode-fails-after-caller-overwrote-an-encoding", fmt.Sprintf("ids=%s err=%v", idsOf(members), err), wit())
+			copy(mine, keep)
+			return
+		}
+	}
 	// every member on its own: its encoding is not empty, names its ID, and a metadata of just that protocol round-trips
 	for _, m := range members {
 		b, err := m.MarshalBinary()
